@@ -519,6 +519,11 @@ def run(ctx):
         if art.tbs is not None:
             check_guard(cfg, art, rep)
         check_derive(cfg, crate, rep)
+        if cfg in ("K1", "K3"):
+            # "validity instants": both Time leaves are written by the one shared time writer, which must encode the
+            # UTC instant of the value it is given (whole seconds, form chosen on the UTC year)
+            import c09
+            common.borrow_rules(rep, lambda: (c09.single(cfg, crate, rep), c09.helper(cfg, crate, rep)), "C09.", "C02.time")
         if cfg in ("K1", "K2", "K0"):
             check_report(cfg, crate, rep)
         if cfg in ("K1", "K2"):
